@@ -279,20 +279,20 @@ Definition t_goroutines (s : tstate) : nat :=
 
 (* termination measure *)
 Definition w_start (p : spc) : nat :=
-  match p with S0 => 6 | S1 => 5 | S2 => 4 | S3 => 3 | S4 => 2 | S5 => 1 | SDone => 0 end.
+  match p with S0 => 16 | S1 => 15 | S2 => 14 | S3 => 13 | S4 => 2 | S5 => 1 | SDone => 0 end.
 Definition w_stop (p : ppc) : nat := match p with P0 => 2 | P1 => 1 | PDone => 0 end.
 Definition w_acc (p : apc) : nat :=
-  match p with ANone => 2 | A0 => 2 | A1 _ => 4 | A2 _ => 3 | A3 => 1 | ADone => 0 end.
+  match p with ANone => 2 | A0 => 2 | A1 _ => 14 | A2 _ => 13 | A3 => 1 | ADone => 0 end.
 Definition w_h (p : hpc) : nat :=
-  match p with HNone => 7 | H0 => 7 | H1 => 6 | H2 => 5 | H3 => 4 | H4 => 3 | H5 => 2 | H6 => 1 | HDone => 0 end.
+  match p with HNone => 10 | H0 => 10 | H1 => 9 | H2 => 8 | H3 => 4 | H4 => 3 | H5 => 2 | H6 => 1 | HDone => 0 end.
 Definition w_r (p : rpc) : nat :=
   match p with RNone => 3 | R0 => 3 | R1 _ => 5 | R2 => 4 | R3 => 2 | R4 => 1 | RDone => 0 end.
-Definition w_cli (p : cpc) : nat := match p with CNew => 3 | CConn => 2 | _ => 0 end.
+Definition w_cli (p : cpc) : nat := match p with CNew => 16 | CConn => 2 | _ => 0 end.
 Definition conn_mu (c : conn) : nat :=
-  w_h (k_h c) + w_r (k_r c) + w_cli (k_cli c) + 5 * length (k_unsent c) + 4 * length (k_queue c)
-  + (if k_acc c then 0 else 3).
+  w_h (k_h c) + w_r (k_r c) + w_cli (k_cli c) + 5 * length (k_unsent c) + 4 * length (k_queue c).
 Definition t_mu (s : tstate) : nat :=
-  w_start (t_start s) + w_acc (t_acc s) + w_stop (t_stop s) + sum (map conn_mu (t_conns s)).
+  w_start (t_start s) + w_acc (t_acc s) + w_stop (t_stop s) + 13 * length (t_backlog s)
+  + sum (map conn_mu (t_conns s)).
 
 (* ========================================================================================== *)
 (* UDP                                                                                         *)
